@@ -508,7 +508,24 @@ pub(crate) fn load_defs(ctx: &mut Context, defs: Defs) -> Vec<String> {
             Def::Prefix { ref expr, is_long } => match eval_prefix(&prefix_lookup, &expr.0) {
                 Ok(value) => {
                     prefix_lookup.insert(name.clone(), value.clone());
-                    ctx.registry.prefixes.push((name.clone(), value.clone()));
+                    // A name that can be split in more than one way
+                    // (`dat`: d-at or da-t) is read with the first
+                    // prefix in this list that fits. Keep the list in
+                    // an order of its own, longest prefix first, not in
+                    // the order the definitions happen to be visited:
+                    // otherwise an unrelated definition (a user's
+                    // `x 1 dam`) changes what `dat` means.
+                    let at = ctx
+                        .registry
+                        .prefixes
+                        .iter()
+                        .position(|(other, _)| {
+                            (other.len(), &name) < (name.len(), other)
+                        })
+                        .unwrap_or(ctx.registry.prefixes.len());
+                    ctx.registry
+                        .prefixes
+                        .insert(at, (name.clone(), value.clone()));
                     if is_long {
                         ctx.registry
                             .units
